@@ -104,7 +104,8 @@ namespace Rubato.C18
 
 /-- tie G9 (syntactic, regenerated on every run): the non-test code of the crate contains no construct that creates or
 mutates state living outside a resampler instance — no `static mut`, `thread_local!`/`lazy_static!`, `Once*`/`Lazy*`
-cells, atomics or locks, interior-mutability cells, writes to the floating-point control register, or process-wide setters.
+cells, atomics or locks, interior-mutability cells, writes to the floating-point control register, process-wide setters,
+or memory handed out uninitialised (`set_len`, `MaybeUninit`, raw allocation: its contents belong to earlier allocations).
 (What the dependencies realfft/rustfft and `is_x86_feature_detected!` do inside is exercised by the thread stress of the
 correspondence run, not covered here.) -/
 theorem no_ambient_state_constructs :
